@@ -109,7 +109,7 @@ def _ops(K, n):
     """name -> function(obj) -> observable (values, bitarrays or lists of them)"""
     import bitstring
     i = _Lazy(lambda: K.int('i', -n - 1, n))
-    a, b = _Lazy(lambda: K.opt_int('a', -n - 1, n + 1)), _Lazy(lambda: K.opt_int('b', -n - 1, n + 1))
+    a, b = _Lazy(lambda: K.opt_int('s_start', -n - 1, n + 1)), _Lazy(lambda: K.opt_int('s_stop', -n - 1, n + 1))
     st = _Lazy(lambda: K.choice('step', [-2, -1, 2]))
     pat = K.bits('pat', 2)
     other = K.bits('other', n)
@@ -152,7 +152,7 @@ def _tofile_bits(K, s):
 def _lsb0_ops(K, n):
     import bitstring
     i = _Lazy(lambda: K.int('i', -n - 1, n))
-    a, b = _Lazy(lambda: K.opt_int('a', -n - 1, n + 1)), _Lazy(lambda: K.opt_int('b', -n - 1, n + 1))
+    a, b = _Lazy(lambda: K.opt_int('s_start', -n - 1, n + 1)), _Lazy(lambda: K.opt_int('s_stop', -n - 1, n + 1))
 
     def lsb(f):
         def g(s):
